@@ -345,7 +345,7 @@ def main():
                 "evidence_file": "/verif/evidence/%s.json" % pid,
                 "replay_cmd_template": "./check %s --replay {path}" % pid,
                 "engine": c["engine"],
-                "level_claimed": {"category": "proof", "text": c["text"] + c.get("text_extra", ""), "design_ref": c["design"]},
+                "level_claimed": {"category": "proof", "text": c["text"] + c.get("text_extra", ""), "design_ref": "§0.3 (as built) and " + c["design"] + " (design)"},
                 "level_note": c["note"],
                 "technique": c["technique"],
             })
